@@ -493,6 +493,40 @@ impl<T> Default for Timer<T> {
     }
 }
 
+/// Verification hooks (`--cfg sozu_verif` only): the wheel with an injectable
+/// clock. Thin forwarders to the private entry points, no logic of their own.
+#[cfg(sozu_verif)]
+impl<T> Timer<T> {
+    pub fn verif_new(tick_ms: u64, num_slots: usize, capacity: usize) -> Timer<T> {
+        Timer::new(tick_ms, num_slots, capacity, Instant::now())
+    }
+    pub fn verif_set_timeout_at(&mut self, delay_from_start: Duration, state: T) -> Timeout {
+        self.set_timeout_at(delay_from_start, state)
+    }
+    pub fn verif_poll_to(&mut self, target_tick: u64) -> Option<T> {
+        self.poll_to(target_tick)
+    }
+    pub fn verif_tick(&self) -> u64 {
+        self.tick
+    }
+    pub fn verif_next_tick(&self) -> Option<u64> {
+        self.next_tick()
+    }
+    pub fn verif_duration_to_tick(elapsed: Duration, tick_ms: u64) -> u64 {
+        duration_to_tick(elapsed, tick_ms)
+    }
+}
+
+#[cfg(sozu_verif)]
+impl Timeout {
+    pub fn verif_parts(&self) -> (usize, u64) {
+        (self.token.0, self.tick)
+    }
+    pub fn verif_from_parts(token: usize, tick: u64) -> Timeout {
+        Timeout { token: Token(token), tick }
+    }
+}
+
 fn duration_to_tick(elapsed: Duration, tick_ms: u64) -> Tick {
     // Calculate tick rounding up to the closest one
     let elapsed_ms = convert::millis(elapsed);
